@@ -7,6 +7,7 @@ import (
 	"bytes"
 	stdjson "encoding/json"
 	"fmt"
+	"math"
 	"math/big"
 	"reflect"
 	"sort"
@@ -280,7 +281,75 @@ func c01Times(c *Ctx) {
 	}
 }
 
+// durLattice: durations around every power of ten of nanoseconds (the text changes unit at 1e3, 1e6, 1e9 and gains
+// minutes and hours at 6e10 and 3.6e12), both signs, the extremes
+func durLattice() []time.Duration {
+	ds := []time.Duration{0, math.MaxInt64, math.MinInt64, time.Hour, 90 * time.Minute, 1500 * time.Millisecond, -123456, 59*time.Second + 999*time.Millisecond,
+		time.Minute - 1, time.Minute, time.Hour - 1, 24 * time.Hour, 100*time.Hour + 1}
+	for e := int64(1); e > 0 && e <= math.MaxInt64/10; e *= 10 {
+		for _, d := range []int64{-1, 0, 1} {
+			ds = append(ds, time.Duration(e+d), -time.Duration(e+d))
+		}
+	}
+	return ds
+}
+
+// c01Durations: the sanctioned difference, pinned down - a time.Duration is written as the quoted text of its String
+// method, wherever it stands
+func c01Durations(c *Ctx) {
+	for _, d := range durLattice() {
+		k := jsonCase{Setting: "duration:" + strconv.FormatInt(int64(d), 10)}
+		want := strconv.Quote(d.String())
+		for _, x := range []any{d, &d, []time.Duration{d}, map[string]time.Duration{"d": d}, struct {
+			D time.Duration `json:"d,omitempty"`
+		}{d}, []any{d}} {
+			c.Case()
+			c.Eval(1)
+			var gb []byte
+			var ge error
+			if p := protect(func() { gb, ge = json.Marshal(x) }); p != "" || ge != nil {
+				c.Diverge("C01", fmt.Sprintf("json.Marshal(%T holding a duration)", x), want, fmt.Sprintf("%v %s", ge, p), "", k)
+				continue
+			}
+			if !strings.Contains(string(gb), want) && !(d == 0 && strings.Contains(string(gb), "{}")) {
+				c.Diverge("C01", fmt.Sprintf("json.Marshal(%T holding a duration)", x), want, clipS(string(gb)), "", k)
+			}
+		}
+	}
+}
+
+// c01NumberTexts: json.Number holds text - valid number literals are written verbatim, everything else is an error,
+// exactly where encoding/json has one (the grammar of a number: sign, leading zero, fraction, exponent)
+func c01NumberTexts(c *Ctx) {
+	texts := []string{"0", "-0", "1", "-1", "10", "01", "-01", "-007", "-00", "00", "007", "+1", "-", "", " 1", "1 ", "1.", "1.0", ".5", "-.5", "0.5", "1e", "1e5", "1E5", "1e+5", "1e-5",
+		"1e+", "1.5e", "1.e5", "1.5e5x", "0x10", "1_000", "1,5", "NaN", "Infinity", "-Infinity", "null", "true", "\"1\"", "1.0000000000000000000000001", "123456789012345678901234567890",
+		"-0.0", "0e0", "0.0e-0", "-0e-0", "9e999", "１", "1\u0030"}
+	for _, tx := range texts {
+		k := jsonCase{Setting: "numbertext:" + tx}
+		n1, n2 := stdjson.Number(tx), json.Number(tx)
+		type both struct {
+			A stdjson.Number
+			S stdjson.Number `json:",string"`
+			O stdjson.Number `json:",omitempty"`
+		}
+		for _, pair := range [][2]any{{n1, n2}, {&n1, &n2}, {[]stdjson.Number{n1}, []json.Number{n2}}, {map[string]stdjson.Number{"n": n1}, map[string]json.Number{"n": n2}},
+			{both{n1, n1, n1}, both{n2, n2, n2}}, {[]any{n1}, []any{n2}}, {map[stdjson.Number]int{n1: 1}, map[json.Number]int{n2: 1}}} {
+			c.Case()
+			wb, we := stdjson.Marshal(pair[0])
+			var gb []byte
+			var ge error
+			if p := protect(func() { gb, ge = json.Marshal(pair[1]) }); p != "" {
+				c.Diverge("C01", fmt.Sprintf("json.Marshal(%T holding a Number)", pair[1]), errStr(we)+" "+clipS(string(wb)), p, "", k)
+				continue
+			}
+			c01Compare(c, k, fmt.Sprintf("json.Marshal(%T holding a Number)", pair[1]), wb, we, gb, ge, "")
+		}
+	}
+}
+
 func c01Numbers(c *Ctx) {
+	c01NumberTexts(c)
+	c01Durations(c)
 	c01Times(c)
 	c01Deep(c)
 	pow := new(big.Int).SetInt64(1)
@@ -318,6 +387,14 @@ func c01Replay(c *Ctx, raw stdjson.RawMessage) {
 	}
 	if strings.HasPrefix(k.Setting, "time:") {
 		c01Times(c)
+		return
+	}
+	if strings.HasPrefix(k.Setting, "duration:") {
+		c01Durations(c)
+		return
+	}
+	if strings.HasPrefix(k.Setting, "numbertext:") {
+		c01NumberTexts(c)
 		return
 	}
 	if strings.HasPrefix(k.Setting, "number:") {
@@ -453,6 +530,34 @@ func c01Scenario(c *Ctx, v *jsonVec) {
 	c.Eval(1)
 	if (e1 == nil) != (e2 == nil) || (e1 == nil && !deepEq(t1.Elem(), t2.Elem())) {
 		c.Diverge("C02", "json.Unmarshal(embedded fields)", fmt.Sprintf("%s err=%v", showVal(t1.Elem()), e1), fmt.Sprintf("%s err=%v", showVal(t2.Elem()), e2), "", k)
+	}
+	// null, a value of the wrong kind and an empty object addressed to each name alone (embedded pointers are allocated, or
+	// refused, on the way to the field - before the value is looked at), into fresh targets and into the ones just filled
+	for _, name := range []string{"X", "Y", "Z", "x", "W", "Q"} {
+		for _, val := range []string{"null", "7", `"s"`, "{}"} {
+			d := []byte(`{"` + name + `":` + val + `}`)
+			for _, fresh := range []bool{true, false} {
+				u1, u2 := t1, t2
+				if fresh {
+					u1, u2 = reflect.New(t), reflect.New(t)
+				}
+				f1 := stdjson.Unmarshal(d, u1.Interface())
+				var f2 error
+				if p := protect(func() { f2 = json.Unmarshal(d, u2.Interface()) }); p != "" {
+					c.Diverge("C02", "json.Unmarshal(embedded fields, one member)", errStr(f1), p+" doc="+string(d), "", k)
+					return
+				}
+				c.Eval(1)
+				if (f1 == nil) != (f2 == nil) || (f1 == nil && !deepEq(u1.Elem(), u2.Elem())) {
+					c.Diverge("C02", "json.Unmarshal(embedded fields, one member)", fmt.Sprintf("%s err=%v doc=%s", showVal(u1.Elem()), f1, d),
+						fmt.Sprintf("%s err=%v", showVal(u2.Elem()), f2), "", k)
+					return
+				}
+				if f1 != nil { // after a failed decode the targets may differ: start again from equal ones
+					t1, t2 = reflect.New(t), reflect.New(t)
+				}
+			}
+		}
 	}
 }
 
@@ -892,7 +997,7 @@ func c02Replay(c *Ctx, raw stdjson.RawMessage) {
 	if stdjson.Unmarshal(raw, &k) != nil {
 		return
 	}
-	if k.Setting == "ptrptr" {
+	if k.Setting == "ptrptr" || k.Setting == "durationdoc" {
 		c02PtrPtr(c)
 		return
 	}
@@ -906,7 +1011,61 @@ func c02Replay(c *Ctx, raw stdjson.RawMessage) {
 // c02PtrPtr: null (and values) decoded into targets that hold non-nil pointers to pointers - JsonTypes generates one
 // level of pointers only.  Open finding F-C02-11: on null the package clears the inner pointer, encoding/json the
 // first settable one; exactly that shape of difference carries the finding's id, any other is a violation.
+// c02Durations: a time.Duration target takes a JSON number as encoding/json's int64 does, and a quoted string as
+// time.ParseDuration reads it (the sanctioned addition)
+func c02Durations(c *Ctx) {
+	var docs []string
+	for _, d := range durLattice() {
+		docs = append(docs, strconv.Quote(d.String()), strconv.FormatInt(int64(d), 10))
+	}
+	docs = append(docs, `"1h2m3.5s"`, `"-1.5h"`, `"0"`, `"1"`, `"+5ms"`, `".5s"`, `"1.s"`, `"1e3s"`, `"1x"`, `""`, `"h"`, `" 1s"`, `"1s "`, `"1 s"`, `"1µs"`, `"1μs"`, `"1us"`,
+		`"9223372036854775807ns"`, `"9223372036854775808ns"`, `"2562047h47m16.854775807s"`, `"2562047h47m16.854775808s"`, `1.5`, `1e3`, `-0`, `9223372036854775808`, `null`, `true`, `[1]`, `{}`)
+	for _, doc := range docs {
+		k := jsonCase{Setting: "durationdoc", Doc: doc}
+		var want time.Duration
+		var werr error
+		if strings.HasPrefix(doc, `"`) {
+			var s string
+			if werr = stdjson.Unmarshal([]byte(doc), &s); werr == nil {
+				want, werr = time.ParseDuration(s)
+			}
+		} else {
+			var n int64
+			werr = stdjson.Unmarshal([]byte(doc), &n)
+			want = time.Duration(n)
+		}
+		type holder struct {
+			D time.Duration
+			P *time.Duration
+			L []time.Duration
+			M map[string]time.Duration
+		}
+		var got time.Duration
+		var h holder
+		var e1, e2 error
+		c.Case()
+		c.Eval(2)
+		if p := protect(func() {
+			e1 = json.Unmarshal([]byte(doc), &got)
+			e2 = json.Unmarshal([]byte(`{"D":`+doc+`,"P":`+doc+`,"L":[`+doc+`],"M":{"k":`+doc+`}}`), &h)
+		}); p != "" {
+			c.Diverge("C02", "json.Unmarshal(*time.Duration)", fmt.Sprintf("%v err=%v", want, werr), p, "", k)
+			continue
+		}
+		if (e1 == nil) != (werr == nil) || (werr == nil && got != want) {
+			c.Diverge("C02", "json.Unmarshal(*time.Duration)", fmt.Sprintf("%d err=%v", want, werr), fmt.Sprintf("%d err=%v", got, e1), "", k)
+		}
+		if doc == "null" {
+			continue
+		}
+		if (e2 == nil) != (werr == nil) || (werr == nil && (h.D != want || h.P == nil || *h.P != want || len(h.L) != 1 || h.L[0] != want || h.M["k"] != want)) {
+			c.Diverge("C02", "json.Unmarshal(durations in a struct)", fmt.Sprintf("%d err=%v", want, werr), fmt.Sprintf("%+v err=%v", h, e2), "", k)
+		}
+	}
+}
+
 func c02PtrPtr(c *Ctx) {
+	c02Durations(c)
 	type S struct {
 		O **int
 		P ***string
